@@ -125,6 +125,9 @@ func (s1 Sign1[P, A]) Verify(key crypto.PublicKey, payload *P, additionalData A)
 	if err != nil {
 		return false, fmt.Errorf("error marshaling signature protected body: %W", err)
 	}
+	if _, ok := sigAlgorithms[alg]; !ok {
+		return false, fmt.Errorf("unsupported signature algorithm: %d", alg)
+	}
 	hash := alg.HashFunc()
 	if !hash.Available() {
 		return false, errors.New("unsupported algorithm")
@@ -144,6 +147,9 @@ func (s1 Sign1[P, A]) Verify(key crypto.PublicKey, payload *P, additionalData A)
 	case *ecdsa.PublicKey:
 		// Decode signature following RFC8152 8.1.
 		n := (pub.Params().N.BitLen() + 7) / 8
+		if len(s1.Signature) != 2*n {
+			return false, fmt.Errorf("signature length must be %d for this key, got %d", 2*n, len(s1.Signature))
+		}
 		r := new(big.Int).SetBytes(s1.Signature[:n])
 		s := new(big.Int).SetBytes(s1.Signature[n:])
 		return ecdsa.Verify(pub, h.Sum(nil), r, s), nil
